@@ -1,11 +1,428 @@
-/- Driver for C09 (stub — not built yet) -/
+/-
+Driver for C09 (and, through Driver/C13.lean, C13): builds the `Net.Config` a script describes
+(same parsing rules as harness/src/c09.rs), runs the kernel model (`Net.run` — the definitions the
+theorems of Props/C09.lean and Props/C13.lean are about) and compares the model's observation
+trace and error list with those of the real simulation, entry by entry (`kind=diverge`).
+Independently the implementation trace is judged by an acceptance checker that knows nothing of
+the model (`kind=reject`): a module that requested shutdown is reset before any other callback of
+it starts, shows no observation while it is down, restarts with stage 0 at exactly the requested
+time and runs its stages in order; no message is handled after passing a gate of a module that
+was down at that instant; nothing of a module runs after a panic of one of its callbacks; the
+error list of `run()` is exactly the multiset of uncaught callback panics and joined task panics;
+the module context is free after the run.
+-/
+import Desverif.Model.Net
 import Driver.Common
 namespace Driver.C09
-open Driver
+open Net Driver
+
+structure Script where
+  mods : List (String × Nat × Bool) := []          -- name, stages, catch
+  links : List Link := []
+  acts : List (Nat × String × Nat × Action) := []   -- module, hook, key, action
+  inits : List (Nat × Nat × Nat) := []
+
+def modIdx (sc : Script) (name : String) : Option Nat :=
+  sc.mods.findIdx? (·.1 == name)
+
+def stripPrefix (s pre : String) : Option String :=
+  if s.startsWith pre then some (s.drop pre.length).toString else none
+
+def parseAction (sc : Script) : List String → Option Action
+  | ["send", dst, delay, id] =>
+    match modIdx sc dst, delay.toNat?, id.toNat? with
+    | some d, some delay, some id => some (.send d delay id)
+    | _, _, _ => none
+  | ["sched", delay, id] =>
+    match delay.toNat?, id.toNat? with
+    | some delay, some id => some (.sched delay id)
+    | _, _ => none
+  | ["spawn", tag, sleep] =>
+    match tag.toNat?, sleep.toNat? with
+    | some tag, some sleep => some (.spawn tag (max sleep 1) false)
+    | _, _ => none
+  | ["spawn", tag, sleep, "join"] =>
+    match tag.toNat?, sleep.toNat? with
+    | some tag, some sleep => some (.spawn tag (max sleep 1) true)
+    | _, _ => none
+  | ["shutdown"] => some .shutdown
+  | ["restart_in", d] => d.toNat?.map .restartIn
+  | ["restart_at", t] => t.toNat?.map .restartAt
+  | ["panic"] => some .panic
+  | ["log", n] => n.toNat?.map .log
+  | _ => none
+
+def parseChan (nconn : Nat) (s : String) : Option (Option ChanCfg) :=
+  if s == "-" then some none
+  else match s.splitOn ":" with
+    | [pos, lat, tx, pol] =>
+      match pos.toNat?, lat.toNat?, tx.toNat? with
+      | some pos, some lat, some tx =>
+        if pos < nconn && (tx == 0 || tx == 4 || tx == 1000) && (pol == "q" || pol == "d") then
+          some (some { pos := pos, lat := lat, tx := tx, queue := pol == "q" })
+        else none
+      | _, _, _ => none
+    | _ => none
+
+def parseScript (body : List String) : Script := Id.run do
+  let mut sc : Script := {}
+  for line in body do
+    match words line with
+    | "mod" :: m :: rest =>
+      if (modIdx sc m).isNone then
+        let stages := (kvNat rest "stages").getD 1
+        let catch_ := kv rest "catch" == some "1"
+        sc := { sc with mods := sc.mods ++ [(m, stages, catch_)] }
+    | _ => pure ()
+  for line in body do
+    match words line with
+    | ["link", a, b, via, chan] =>
+      match modIdx sc a, modIdx sc b, stripPrefix via "via=", stripPrefix chan "chan=" with
+      | some ai, some bi, some via, some chan =>
+        if ai != bi && !sc.links.any (fun l => l.src == ai && l.dst == bi) then
+          let via? : Option (Option Nat) :=
+            if via == "-" then some none
+            else match modIdx sc via with
+              | some t => if t != ai && t != bi then some (some t) else none
+              | none => none
+          match via? with
+          | some v =>
+            let owners := match v with
+              | some t => [ai, t, t, bi]
+              | none => [ai, bi]
+            match parseChan (owners.length - 1) chan with
+            | some c => sc := { sc with links := sc.links ++ [{ src := ai, dst := bi, owners := owners, chan := c }] }
+            | none => pure ()
+          | none => pure ()
+      | _, _, _, _ => pure ()
+    | "act" :: m :: hook :: key :: rest =>
+      match modIdx sc m, key.toNat? with
+      | some mi, some key =>
+        if hook == "msg" || hook == "start" || hook == "end" || hook == "task" then
+          match parseAction sc rest with
+          | some a => sc := { sc with acts := sc.acts ++ [(mi, hook, key, a)] }
+          | none => pure ()
+      | _, _ => pure ()
+    | ["init", m, id, t] =>
+      match modIdx sc m, id.toNat?, t.toNat? with
+      | some mi, some id, some t => sc := { sc with inits := sc.inits ++ [(mi, id, t)] }
+      | _, _, _ => pure ()
+    | _ => pure ()
+  return sc
+
+def progOf (sc : Script) (mi : Nat) : Prog :=
+  let mine := sc.acts.filter (·.1 == mi)
+  let get (hook : String) (key : Nat) : List Action :=
+    (mine.filter fun a => a.2.1 == hook && a.2.2.1 == key).map (·.2.2.2)
+  { onMsg := get "msg", onStart := get "start", onEnd := get "end" 0, onTask := get "task" }
+
+def configOf (sc : Script) : Config :=
+  { mods := sc.mods.zipIdx.map fun p => { prog := progOf sc p.2, stages := p.1.2.1, catches := p.1.2.2 }
+    links := sc.links
+    inits := sc.inits }
+
+def kindOf : String → Option OKind
+  | "msg" => some .msg | "start" => some .start | "end" => some .end_ | "reset" => some .reset
+  | "task" => some .task | "snd" => some .snd | "sch" => some .sch | "log" => some .log
+  | "dwn" => some .dwn | "pan" => some .pan | _ => none
+
+def kindName : OKind → String
+  | .msg => "msg" | .start => "start" | .end_ => "end" | .reset => "reset" | .task => "task"
+  | .snd => "snd" | .sch => "sch" | .log => "log" | .dwn => "dwn" | .pan => "pan"
+
+def optNat (s : String) : Option (Option Nat) :=
+  if s == "-" then some none else s.toNat?.map some
+
+def parseObs (sc : Script) (ws : List String) : Option Obs :=
+  match ws with
+  | [_, m, kind, a, b, t] =>
+    match modIdx sc m, kindOf kind, optNat a, optNat b, t.toNat? with
+    | some mi, some k, some a, some b, some t => some ⟨mi, k, a, b, t⟩
+    | _, _, _, _, _ => none
+  | _ => none
+
+def showOpt : Option Nat → String
+  | some x => toString x
+  | none => "-"
+
+def showObs (sc : Script) : Option Obs → String
+  | some o =>
+    let m := ((sc.mods[o.mod]?).map (·.1)).getD s!"#{o.mod}"
+    s!"{m}/{kindName o.kind}/{showOpt o.a}/{showOpt o.b}/{o.time}"
+  | none => "<nothing>"
+
+def firstDiff (a b : List Obs) : Option Nat := Id.run do
+  let n := max a.length b.length
+  for i in [0:n] do
+    if a[i]? != b[i]? then return some i
+  return none
+
+def showErr (sc : Script) (e : ErrKind × Nat) : String :=
+  let m := ((sc.mods[e.2]?).map (·.1)).getD s!"#{e.2}"
+  match e.1 with
+  | .panic => s!"panic:{m}"
+  | .join => s!"join:{m}"
+
+/-- the `res` line the model predicts -/
+def resOf (sc : Script) (errs : List (ErrKind × Nat)) : List String :=
+  if errs.isEmpty then ["ok"] else "err" :: errs.map (showErr sc)
+
+def insertSorted (x : String) : List String → List String
+  | [] => [x]
+  | y :: ys => if x ≤ y then x :: y :: ys else y :: insertSorted x ys
+
+def sortStrings (l : List String) : List String := l.foldl (fun acc x => insertSorted x acc) []
+
+/-! ## acceptance checker (knows the script's static data and the implementation trace only) -/
+
+inductive Phase | up | down | ended
+deriving DecidableEq
+
+structure MSt where
+  phase : Phase := .up
+  pending : Option (Option Nat) := none     -- a `dwn` seen, `reset` not yet
+  restartAt : Option Nat := none            -- while down: the requested restart time
+  nextStage : Option Nat := none            -- while the restart stages run: the stage expected next
+  stageTime : Nat := 0
+  everDown : Bool := false
+  dead : Bool := false                      -- a callback panicked
+  downs : List (Nat × Option Nat) := []     -- closed / open down intervals (from, to)
+
+structure Acc where
+  ms : Array MSt
+  ended : Bool := false
+  fail : Option (Nat × String) := none
+
+def isCode : OKind → Bool
+  | .msg | .start | .task | .snd | .sch | .log | .dwn | .pan => true
+  | _ => false
+
+/-- one observation of the implementation trace; `hasPanic`: the script contains a panic action -/
+def acceptStep (sc : Script) (hasPanic : Bool) (acc : Acc) (io : Nat × Obs) : Acc := Id.run do
+  let (i, o) := io
+  if acc.fail.isSome then return acc
+  let some st := acc.ms[o.mod]? | return { acc with fail := some (i, "no-such-module") }
+  let stages := ((sc.mods[o.mod]?).map (·.2.1)).getD 0
+  let bad (c : String) : Acc := { acc with fail := some (i, c) }
+  let put (st : MSt) : Acc := { acc with ms := acc.ms.set! o.mod st }
+  -- the simulation end: `at_sim_end` runs for every module, overdue tasks resume (see DESIGN C13)
+  if o.kind == .end_ then return { (put { st with phase := .ended }) with ended := true }
+  if acc.ended || st.phase == .ended then return acc
+  let mut st := st
+  -- a module of which a callback panicked runs nothing any more, unless it is restarted
+  if st.dead && st.phase == .up && isCode o.kind then return bad "ran-after-panic"
+  if st.phase == .down then
+    -- a module without start stages restarts invisibly
+    if stages == 0 && o.kind != .reset then
+      match st.restartAt with
+      | some r =>
+        if o.time ≥ r then
+          st := { st with phase := .up, dead := false, restartAt := none,
+                          downs := st.downs.map fun d => if d.2.isNone then (d.1, some r) else d }
+        else return bad "inert-while-down"
+      | none => return bad "inert-while-down"
+    else if o.kind == .start && o.a == some 0 then
+      match st.restartAt with
+      | some r =>
+        if o.time != r then return bad "restart-time"
+        st := { st with phase := .up, dead := false, restartAt := none, nextStage := some 1, stageTime := r,
+                        downs := st.downs.map fun d => if d.2.isNone then (d.1, some r) else d }
+        return put st
+      | none => return bad "restart-without-request"
+    else return bad "inert-while-down"
+  -- phase up
+  match o.kind with
+  | .dwn => return put { st with pending := some o.a }
+  | .reset =>
+    match st.pending with
+    | some r =>
+      -- stages that were still expected are cut short by the shutdown
+      return put { st with phase := .down, pending := none, restartAt := r, nextStage := none, everDown := true,
+                           downs := st.downs ++ [(o.time, if stages == 0 then r else none)] }
+    | none => return bad "reset-without-request"
+  | .start =>
+    match st.nextStage with
+    | some k =>
+      if o.a != some k || o.time != st.stageTime then return bad "stage-order"
+      return put { st with nextStage := some (k + 1) }
+    | none =>
+      -- the initial start-up: time 0, before the module was ever down
+      if st.everDown || o.time != 0 then return bad "spurious-start"
+      if st.pending.isSome then return bad "shutdown-not-executed"
+      return put st
+  | .msg =>
+    if st.pending.isSome then return bad "shutdown-not-executed"
+    match st.nextStage with
+    | some k =>
+      if k < stages && !hasPanic then return bad "stages-incomplete"
+      return put { st with nextStage := none }
+    | none => return put st
+  | .pan =>
+    if o.a == some 0 then return put { st with dead := true } else return put st
+  | _ => return put st
+
+def accept (sc : Script) (hasPanic : Bool) (impl : List Obs) : Acc :=
+  impl.zipIdx.foldl (fun acc p => acceptStep sc hasPanic acc (p.2, p.1)) { ms := (sc.mods.map fun _ => ({} : MSt)).toArray }
+
+/-- was module `o` down strictly around instant `t`? -/
+def downAround (acc : Acc) (o t : Nat) : Bool :=
+  match acc.ms[o]? with
+  | some st => st.downs.any fun d => d.1 < t && (match d.2 with | some e => t < e | none => true)
+  | none => false
+
+/-- a handled message whose last hops passed a gate of a module that was down at that instant -/
+def throughDown (sc : Script) (acc : Acc) (impl : List Obs) : Option (Nat × String) := Id.run do
+  let mut i := 0
+  let mut ended := false
+  for o in impl do
+    if o.kind == .end_ then ended := true
+    if !ended && o.kind == .msg then
+      if downAround acc o.mod o.time then return some (i, "delivered-to-down-module")
+      match o.b with
+      | some serial =>
+        let sender := serial / 4096
+        if sender < 15 && sender != o.mod then
+          match sc.links.find? (fun l => l.src == sender && l.dst == o.mod) with
+          | some l =>
+            -- the gates behind the channel (all gates but the last if there is none) are passed at `o.time`
+            let from_ := match l.chan with
+              | some c => c.pos + 1
+              | none => 0
+            let transit := (l.owners.drop from_).dropLast
+            if transit.any (fun w => downAround acc w o.time) then return some (i, "delivered-through-down-module")
+          | none => return some (i, "delivered-without-link")
+      | none => pure ()
+    i := i + 1
+  return none
+
+/-- the error list `run()` must return, as a sorted multiset, from the trace alone -/
+def expectedErrors (sc : Script) (impl : List Obs) : List String := Id.run do
+  let mut out : List String := []
+  let n := sc.mods.length
+  for mi in [0:n] do
+    let name := ((sc.mods[mi]?).map (·.1)).getD "?"
+    let catches := ((sc.mods[mi]?).map (·.2.2)).getD false
+    let mine := impl.filter (·.mod == mi)
+    let cb := (mine.filter fun o => o.kind == .pan && o.a == some 0).length
+    if !catches then out := out ++ List.replicate cb s!"panic:{name}"
+    -- an uncaught panic of `at_sim_end` itself returns before the join handles are looked at
+    let afterEnd := mine.dropWhile (·.kind != .end_)
+    let endPanic := !catches && afterEnd.any fun o => o.kind == .pan && o.a == some 0
+    let joined := (mine.filter fun o => o.kind == .pan && o.a == some 1 && o.b == some 1).length
+    if !endPanic then out := out ++ List.replicate joined s!"join:{name}"
+  return sortStrings out
+
+def fuel : Nat := 30000
+
+def runCase (twice : Bool) (c : Case) : String := Id.run do
+  let id := ((words c.header)[1]?).getD "?"
+  let isOut (l : String) : Bool := l.startsWith "obs" || l.startsWith "res" || l.startsWith "glob" || l.startsWith "end"
+  let body := c.body.filter fun l => !isOut l
+  let sc := parseScript body
+  let hasPanic := sc.acts.any fun a => a.2.2.2 == .panic
+  let mut impl : List Obs := []
+  let mut impl2 : List Obs := []
+  let mut res : List String := []
+  let mut res2 : List String := []
+  let mut glob := ""
+  let mut glob2 := ""
+  let mut i := 0
+  for line in c.body do
+    let ws := words line
+    match ws with
+    | "obs" :: _ =>
+      i := i + 1
+      match parseObs sc ws with
+      | some o => impl := o :: impl
+      | none => return s!"fail {id} op={i} kind=badline detail=[{line}]"
+    | "obs2" :: _ =>
+      match parseObs sc ws with
+      | some o => impl2 := o :: impl2
+      | none => return s!"fail {id} op={i} kind=badline detail=[{line}]"
+    | "res" :: r => res := r
+    | "res2" :: r => res2 := r
+    | ["glob", g] => glob := g
+    | ["glob2", g] => glob2 := g
+    | _ => pure ()
+  impl := impl.reverse
+  impl2 := impl2.reverse
+  if res.isEmpty then return s!"fail {id} op=0 kind=badline detail=no-result"
+  -- T: the model
+  let s := run fuel (configOf sc)
+  let crashed := res.head? == some "crash"
+  match s.fault with
+  | some "add-in-the-past" =>
+    -- a restart time in the past makes `Runtime::add_event` panic (the caller's obligation, see
+    -- `shutdow_and_restart_at`): both sides must agree that the simulator stops
+    if crashed then return s!"ok {id} nt=0 pastrestart=1"
+    else return s!"fail {id} op={impl.length} kind=diverge what=past-restart model=[crash] impl=[{" ".intercalate res}]"
+  | some f => return s!"fail {id} op=0 kind=badcase detail=model-{f}"
+  | none => pure ()
+  if crashed then
+    return s!"fail {id} op={impl.length} kind=reject clause=simulator-crashed impl=[{" ".intercalate res}] last=[{showObs sc impl.getLast?}]"
+  -- A: the acceptance checker
+  let acc := accept sc hasPanic impl
+  match acc.fail with
+  | some (k, clause) =>
+    return s!"fail {id} op={k} kind=reject clause={clause} at=[{showObs sc impl[k]?}] prev=[{showObs sc (if k = 0 then none else impl[k-1]?)}]"
+  | none => pure ()
+  match throughDown sc acc impl with
+  | some (k, clause) => return s!"fail {id} op={k} kind=reject clause={clause} at=[{showObs sc impl[k]?}]"
+  | none => pure ()
+  let exp := expectedErrors sc impl
+  let got := sortStrings (res.drop 1)
+  if exp != got then
+    return s!"fail {id} op={impl.length} kind=reject clause=errors-eq-panicked-paths spec=[{" ".intercalate exp}] impl=[{" ".intercalate got}]"
+  if glob != "ctx=free" then
+    return s!"fail {id} op={impl.length} kind=reject clause=globals-released impl=[{glob}]"
+  -- T: whole trace, error list
+  match firstDiff s.trace impl with
+  | some k =>
+    return s!"fail {id} op={k} kind=diverge model=[{showObs sc s.trace[k]?}] impl=[{showObs sc impl[k]?}] prev=[{showObs sc (if k = 0 then none else impl[k-1]?)}]"
+  | none => pure ()
+  if resOf sc s.errors != res then
+    return s!"fail {id} op={impl.length} kind=diverge what=errors model=[{" ".intercalate (resOf sc s.errors)}] impl=[{" ".intercalate res}]"
+  if s.cur.isSome then
+    return s!"fail {id} op={impl.length} kind=diverge what=context model=[held] impl=[free]"
+  if twice then
+    -- the second simulation in the same process
+    if glob2 != "ctx=free" then
+      return s!"fail {id} op={impl.length} kind=reject clause=globals-released run=2 impl=[{glob2}]"
+    match firstDiff s.trace impl2 with
+    | some k =>
+      return s!"fail {id} op={k} kind=diverge run=2 model=[{showObs sc s.trace[k]?}] impl=[{showObs sc impl2[k]?}]"
+    | none => pure ()
+    if resOf sc s.errors != res2 then
+      return s!"fail {id} op={impl.length} kind=diverge run=2 what=errors model=[{" ".intercalate (resOf sc s.errors)}] impl=[{" ".intercalate res2}]"
+  -- evidence
+  let mainLoop := impl.takeWhile (·.kind != .end_)
+  let count (k : OKind) : Nat := (mainLoop.filter (·.kind == k)).length
+  let resets := count .reset
+  let restarts := (acc.ms.toList.map fun st => (st.downs.filter (·.2.isSome)).length).foldl (· + ·) 0
+  let cycles := (acc.ms.toList.filter fun st => st.downs.length ≥ 2).length
+  let sent := mainLoop.filter fun o => o.kind == .snd || o.kind == .sch
+  let handled := mainLoop.filter (·.kind == .msg)
+  let dropped := (sent.filter fun o => !handled.any (fun h => h.b == o.b)).length
+  let pans := impl.filter (·.kind == .pan)
+  let cbPans := (pans.filter (·.a == some 0)).length
+  let taskPans := (pans.filter (·.a == some 1)).length
+  let caught := (pans.filter fun o => o.a == some 0 && ((sc.mods[o.mod]?).map (·.2.2)).getD false).length
+  let firstPan := mainLoop.findIdx? (fun o => o.kind == .pan && o.a == some 0)
+  let afterPan := match firstPan with
+    | some k => match mainLoop[k]? with
+      | some p => ((mainLoop.drop k).filter fun o => o.kind == .msg && o.mod != p.mod).length
+      | none => 0
+    | none => 0
+  let ties := ((handled.zip (handled.drop 1)).filter fun p => p.1.time == p.2.time).length
+  let transit := (sc.links.filter (·.owners.length > 2)).length
+  let chans := (sc.links.filter (·.chan.isSome)).length
+  let endTasks := ((impl.dropWhile (·.kind != .end_)).filter (·.kind == .task)).length
+  let nt := if twice then cbPans > 0 && afterPan > 0 else resets > 0 && restarts > 0 && dropped > 0
+  return s!"ok {id} nt={if nt then 1 else 0} obs={impl.length} mods={sc.mods.length} resets={resets} restarts={restarts} cycles={cycles} sent={sent.length} handled={handled.length} dropped={dropped} tasks={count .task} ties={ties} transitlinks={transit} chanlinks={chans} cbpanics={cbPans} taskpanics={taskPans} caught={caught} errs={s.errors.length} afterpanic={afterPan} endtasks={endTasks} events={s.evs.size}"
 
 def main (stdin : IO.FS.Stream) : IO Unit := do
   let cases ← readCases stdin
   for c in cases do
-    IO.println s!"fail {(words c.header)[1]?.getD "?"} op=0 kind=unimplemented"
+    IO.println (runCase false c)
 
 end Driver.C09
